@@ -254,6 +254,25 @@ func c16Main(args []string) error {
 					}
 					coords = append(coords, c16Coord{Base: bi, GE: dir == 0, Off: off, Mask: m})
 				}
+				if dir == 1 && n > 80 {
+					// the SAME alteration in two, three or four of the returned result labels (a check that
+					// aggregates the labels instead of comparing each one could cancel them out)
+					for _, bm := range []byte{0x80, 0x01, 0xff} {
+						for cnt := 2; cnt <= 4; cnt++ {
+							for _, inByte := range []int{0, 15} {
+								m := make([]byte, 16*(cnt-1)+1)
+								for j := 0; j < cnt; j++ {
+									m[16*j] = bm
+								}
+								first := n - 16*cnt - 16*rng.Intn(2) + inByte
+								if first < 0 || first+len(m) > n {
+									continue
+								}
+								coords = append(coords, c16Coord{Base: bi, GE: false, Off: first, Mask: m})
+							}
+						}
+					}
+				}
 			}
 		}
 		if ncoords > 0 && b.tc == nil && sr.otG != nil && sr.otE != nil && sr.otG.posInit > 36 && sr.otE.posEnd > 0 {
